@@ -127,3 +127,25 @@ MANIFEST_TEXT["C03"] = {
     "technique": "exhaustive small-alphabet enumeration + property-based structured mutation (rapid), model-based soundness oracle",
 }
 NOT_APPLICABLE[:] = [e for e in NOT_APPLICABLE if e["property_id"] not in CHECKS]
+
+CHECKS["C05"] = {
+    "test": "TestC05",
+    "quick": {"shards": 8, "checks": 1500},
+    "thorough": {"shards": 16, "checks": 6000},
+    "rule": "a generated history builds the state in Stump, Pollard, a full and a partial MapPollard (generated TotalRows) and a light client's cached proof; "
+            "then one block deletes a generated live target set (shapes as in C02) whose proof is encoded as: canonical / targets+hashes permuted in parallel / "
+            "1-3 junk hashes appended / assembled by AddProof from two (possibly overlapping) honest proofs / cut by GetProofSubset from a larger honest proof / "
+            "cut from the cached proof maintained by Proof.Update; followed by 0..k additions and optionally one honest follow-up block. Precondition checked, "
+            "not assumed: Verify accepts and the targets are distinct positions of live leaves with their hashes (failures counted per encoding). Oracle: "
+            "Stump.Update, Pollard.Modify, MapPollard Verify(remember)+Modify all succeed and end with the model's roots and leaf count. Non-trivial: "
+            "encoding other than canonical and >=2 targets.",
+    "assumptions": COMMON_ASSUME,
+}
+MANIFEST_TEXT["C05"] = {
+    "level_text": "Exploration: generated states x target sets x proof encodings, differential across the three implementations and against the reference model. "
+                  "Unbounded domain, sampled; the encoding distribution and precondition failures are measured.",
+    "design_ref": "DESIGN.md section 6 C05",
+    "level_note": TRUST,
+    "technique": "property-based testing (rapid): metamorphic proof encodings + differential/model oracle",
+}
+NOT_APPLICABLE[:] = [e for e in NOT_APPLICABLE if e["property_id"] not in CHECKS]
